@@ -143,6 +143,10 @@ def real_crashes(task):
                 cells = drv.cells()["local"]
                 out["events"].append({"limit": k, "writer_exit": p.returncode, "cells": cells})
                 out["n"] += 1
+                if p.returncode == 0 and any(v != "complete" for v in cells.values()):
+                    # Cache!RepairAfterCreate / Alos2!RepairAfterCreate: a create_cache=True open that RETURNS has written complete indexes
+                    out["bad"].append(("create-returned-but-torn", f"open(create_cache=True) returned normally although the write was cut at {k} bytes "
+                                       f"(disk full): the index is left {cells} and the caller is not told"))
                 check_open(f"after-disk-full-at-{k}")
                 check_open(f"repair-after-disk-full-at-{k}", {"create_cache": True})
                 check_open(f"cached-after-repair-{k}", {"use_cache": True})
